@@ -507,8 +507,8 @@ class Registry(object):
         f = sys._getframe(2)
         while f is not None:
             n = f.f_globals.get('__name__', '')
-            if n.startswith('contracts.'):
-                return n
+            if n.startswith('contracts.') and f.f_code.co_name == '<module>':
+                return n                      # (helpers of another contracts module may be on the stack in between)
             f = f.f_back
         return None
 
